@@ -253,6 +253,19 @@ def run(ctx, canary=False):
     for k in range(120 if thorough else 8):
         arb.append(E.gen_instance(rng, nattr=rng.choice([2, 3]), max_meas=4, zeros_prob=0.0, allow_empty=False,
                                   kinds=["identity", "none", "twice", "total", "stack", "id+total", "prefix"]))
+    # chordless cycles of five and six attributes with noisy (mutually inconsistent) pair measurements: elimination needs
+    # several rounds of fill-in, and an optimum reported from tables that are not the marginals of one joint would show
+    for ncyc in ([5, 6] if thorough else [5]):
+        inst = E.gen_instance(rng, nattr=5, max_meas=0, zeros_prob=0.0, allow_empty=True, sizes=[2] * 5)
+        if ncyc == 6:
+            inst["order"].append("f"); inst["sz"]["f"] = 2
+            inst["x"] = [float(v) for v in np.repeat(np.array(inst["x"]), 2)]
+        names = list(inst["order"])
+        for i in range(ncyc):
+            pr = [names[i], names[(i + 1) % ncyc]]
+            y = E.true_marginal(inst, pr).reshape(-1) + np.array([rng.gauss(0, 3.0) for _ in range(4)])
+            inst["meas"].append({"proj": pr, "kind": "identity", "noise": 3.0, "y": [float(v) for v in y]})
+        arb.append(inst)
     for inst in arb:
         s = rng.choice(["MD", "RDA", "IG"])
         mode = rng.choice(["given", "estimated"])
